@@ -80,6 +80,9 @@ theorem fifo_wStep (c : Cfg) {s : St} (pick : Nat) (ok : Bool) (h : Fifo s) : Fi
       · simp only [Fifo, St.flushedFlat] at *
         rw [← h, hc]; simp
   · split
+    · simpa [Fifo, St.flushedFlat] using h
+    · exact h
+  · split
     · split
       · simpa [Fifo, St.flushedFlat] using h
       · rename_i m rest hc
@@ -140,6 +143,7 @@ theorem wStep_core (c : Cfg) (s : St) (pick : Nat) (ok : Bool) :
     · simp
     · simp
     · split <;> simp
+  · split <;> simp
   · split
     · split <;> simp
     · simp
@@ -396,6 +400,9 @@ theorem flushedAcc_wStep (c : Cfg) {s : St} (pick : Nat) (ok : Bool) (h : Flushe
     · exact flushedAcc_frame h rfl rfl rfl rfl rfl
     · split <;> exact flushedAcc_frame h rfl rfl rfl rfl rfl
   · split
+    · exact flushedAcc_frame h rfl rfl rfl rfl rfl
+    · exact h
+  · split
     · split <;> exact flushedAcc_frame h rfl rfl rfl rfl rfl
     · exact flushedAcc_frame h rfl rfl rfl rfl rfl
   · split
@@ -444,10 +451,13 @@ theorem flushedAcc_run (c : Cfg) (acts : List Act) {s : St} (h : FlushedAcc s) :
 /-! ### I2 — the writer only takes the closing path after `close(done)`; I6 — with a handler
     configured no failed batch goes unreported -/
 
-def Closing (s : St) : Prop :=
-  (s.wpc = .drain true ∨ s.wpc = .flush true ∨ s.wpc = .exited) → s.done = true
+def isClosingPc : WPc → Bool
+  | .barrier | .drain true | .flush true | .exited => true
+  | _ => false
 
-theorem closing_init : Closing St.init := by intro h; simp [St.init] at h
+def Closing (s : St) : Prop := isClosingPc s.wpc = true → s.done = true
+
+theorem closing_init : Closing St.init := by intro h; simp [St.init, isClosingPc] at h
 
 theorem closing_step (c : Cfg) {s : St} (a : Act) (h : Closing s) : Closing (step c s a) := by
   cases a with
@@ -467,32 +477,32 @@ theorem closing_step (c : Cfg) {s : St} (a : Act) (h : Closing s) : Closing (ste
     obtain ⟨_, _, _, hd⟩ := wStep_core c s pick ok
     intro hh
     rw [hd]
-    unfold wStep at hh
-    split at hh
-    · rename_i hw; exact h (Or.inr (Or.inr hw))
-    · split at hh
-      · rename_i hw _ _ _ _; simp [hw] at hh
-      · rename_i hdone _; exact hdone
-      · simp at hh
-      · rename_i hdone _; exact hdone
-    · rename_i cl hw
-      split at hh
-      · split at hh
-        · cases cl
-          · simp at hh
-          · exact h (Or.inl hw)
-        · cases cl
-          · simp [hw] at hh
-          · exact h (Or.inl hw)
-      · cases cl
-        · simp at hh
-        · exact h (Or.inl hw)
-    · rename_i cl hw
-      cases cl
-      · split at hh
-        · simp [afterFlush] at hh
-        · simp [afterBatch] at hh
-      · exact h (Or.inr (Or.inl hw))
+    cases hdn : s.done with
+    | true => rfl
+    | false =>
+      exfalso
+      have hnc : isClosingPc s.wpc = false := by
+        cases hx : isClosingPc s.wpc with
+        | false => rfl
+        | true => have := h hx; rw [hdn] at this; cases this
+      revert hh
+      unfold wStep
+      cases hw : s.wpc with
+      | exited => simp [hw, isClosingPc] at hnc
+      | barrier => simp [hw, isClosingPc] at hnc
+      | select => cases hc : s.chan <;> simp [hdn, hc, hw, isClosingPc]
+      | drain cl =>
+        cases cl
+        · dsimp only
+          split
+          · split <;> simp [isClosingPc]
+          · simp [isClosingPc]
+        · simp [hw, isClosingPc] at hnc
+      | flush cl =>
+        cases cl
+        · dsimp only
+          split <;> simp [isClosingPc, afterFlush, afterBatch]
+        · simp [hw, isClosingPc] at hnc
   | fdrain =>
     simp only [step, fdrainStep]
     split
@@ -504,6 +514,54 @@ theorem closing_run (c : Cfg) (acts : List Act) {s : St} (h : Closing s) : Closi
   induction acts generalizing s with
   | nil => exact h
   | cons a as ih => exact ih (closing_step c a h)
+
+/-- since fix `fanout-inline-deadletter` the handler never drops a hand-off -/
+def NoDrop (s : St) : Prop := s.dropped = []
+
+theorem noDrop_step (c : Cfg) {s : St} (a : Act) (h : NoDrop s) : NoDrop (step c s a) := by
+  have hh : ∀ s0 : St, ∀ b, (handler c s0 b).dropped = s0.dropped := by
+    intro s0 b; unfold handler; split
+    · rfl
+    · split <;> rfl
+  cases a with
+  | begin m => simp only [step]; split <;> exact h
+  | cancel t => exact h
+  | sub t pick =>
+    simp only [step]
+    obtain ⟨_, _, _, h4, _⟩ := subStep_frame c s t pick
+    unfold NoDrop; rw [h4]; exact h
+  | close => exact h
+  | wstep pick ok =>
+    simp only [step, NoDrop]
+    unfold wStep
+    split
+    · exact h
+    · split
+      · exact h
+      · exact h
+      · exact h
+      · split <;> exact h
+    · split <;> exact h
+    · split
+      · split <;> exact h
+      · exact h
+    · split
+      · exact h
+      · dsimp only
+        unfold flushBatch
+        dsimp only
+        split
+        · exact h
+        · split
+          · rw [hh]; exact h
+          · exact h
+  | fdrain => simp only [step, fdrainStep]; split <;> exact h
+  | sysdown => exact h
+
+theorem noDrop_run (c : Cfg) (acts : List Act) {s : St} (h : NoDrop s) : NoDrop (run c s acts) := by
+  induction acts generalizing s with
+  | nil => exact h
+  | cons a as ih => exact ih (noDrop_step c a h)
 
 def NoUnhandled (s : St) : Prop := s.unhandled = []
 
@@ -531,6 +589,7 @@ theorem noUnhandled_step (c : Cfg) (hc : c.hasHandler = true) {s : St} (a : Act)
       · exact h
       · exact h
       · split <;> exact h
+    · split <;> exact h
     · split
       · split <;> exact h
       · exact h
@@ -562,16 +621,19 @@ theorem noUnhandled_run (c : Cfg) (hc : c.hasHandler = true) (acts : List Act) {
   | cons a as ih => exact ih (noUnhandled_step c hc a h)
 
 
-/-! ### I8 — after a close that no submit call straddles, the channel only shrinks and the writer
-    leaves only on an empty channel (this is what fix 305110c buys) -/
+/-! ### I8 — the barrier (`c.inflight.Lock()` after `done`): past it, every submit call in progress is
+    still at its pre-check, the channel only shrinks, and the writer leaves only on an empty channel -/
 
-/-- once `done` is set, every submit call in progress is still at its pre-check (it will return
-    `closed`): no call is between the pre-check and its channel send -/
-def NoRace (s : St) : Prop := s.done = true → ∀ p ∈ s.pend, p.pc = .pre
+/-- past the barrier, every submit call in progress is still at its pre-check (it will return `closed`) -/
+def PostBarrier (s : St) : Prop :=
+  (s.wpc = .drain true ∨ s.wpc = .flush true ∨ s.wpc = .exited) → ∀ p ∈ s.pend, p.pc = .pre
 
 /-- the writer can only be past its final empty drain with an empty channel -/
 def ExitClean (s : St) : Prop :=
   (s.wpc = .exited ∨ (s.wpc = .flush true ∧ s.batch = [])) → s.chan = []
+
+theorem postBarrier_init : PostBarrier St.init := by intro h; simp [St.init] at h
+theorem exitClean_init : ExitClean St.init := by intro h; simp [St.init] at h
 
 theorem subStep_noRace (c : Cfg) (s : St) (t pick : Nat) (hd : s.done = true)
     (hp : ∀ p ∈ s.pend, p.pc = .pre) :
@@ -588,35 +650,68 @@ theorem subStep_noRace (c : Cfg) (s : St) (t pick : Nat) (hd : s.done = true)
     intro q hq
     exact hp q (List.mem_filter.mp hq).1
 
-theorem noRace_step (c : Cfg) {s : St} (a : Act) (h : NoRace s)
-    (hclose : a = .close → ∀ p ∈ s.pend, p.pc = .pre) : NoRace (step c s a) := by
+theorem closingOf {s : St} (h : s.wpc = .drain true ∨ s.wpc = .flush true ∨ s.wpc = .exited) :
+    isClosingPc s.wpc = true := by
+  rcases h with h | h | h <;> simp [h, isClosingPc]
+
+theorem postBarrier_step (c : Cfg) {s : St} (a : Act) (hc : Closing s) (h : PostBarrier s) :
+    PostBarrier (step c s a) := by
   cases a with
   | begin m =>
     simp only [step]
     split
     · exact h
-    · intro hd p hp
+    · intro hw p hp
       simp only [List.mem_append, List.mem_singleton] at hp
       rcases hp with hp | hp
-      · exact h hd p hp
+      · exact h hw p hp
       · subst hp; rfl
   | cancel t =>
-    intro hd p hp
+    intro hw p hp
     simp only [step, setCtxDone, List.mem_map] at hp
     obtain ⟨q, hq, rfl⟩ := hp
-    have := h hd q hq
+    have := h hw q hq
     split <;> simpa using this
   | sub t pick =>
     simp only [step]
-    intro hd
-    obtain ⟨_, _, _, _, _, h6, _⟩ := subStep_frame c s t pick
-    rw [h6] at hd
-    exact (subStep_noRace c s t pick hd (h hd)).2
-  | close => intro _; exact hclose rfl
+    obtain ⟨_, _, _, _, _, _, h7, _⟩ := subStep_frame c s t pick
+    intro hw
+    rw [h7] at hw
+    exact (subStep_noRace c s t pick (hc (closingOf hw)) (h hw)).2
+  | close => exact h
   | wstep pick ok =>
     simp only [step]
-    obtain ⟨_, h2, _, h4⟩ := wStep_core c s pick ok
-    intro hd; rw [h2]; rw [h4] at hd; exact h hd
+    obtain ⟨_, h2, _, _⟩ := wStep_core c s pick ok
+    intro hw
+    rw [h2]
+    revert hw
+    unfold wStep
+    cases hwpc : s.wpc with
+    | exited => intro _; exact h (Or.inr (Or.inr hwpc))
+    | barrier =>
+      dsimp only
+      split
+      · rename_i he; intro _ p hp; rw [List.isEmpty_iff.mp he] at hp; cases hp
+      · intro hw; simp [hwpc] at hw
+    | select =>
+      dsimp only
+      split
+      · intro hw; simp [hwpc] at hw
+      · intro hw; simp at hw
+      · intro hw; simp at hw
+      · split <;> (intro hw; simp at hw)
+    | drain cl =>
+      cases cl
+      · dsimp only
+        split
+        · split <;> (intro hw; simp [hwpc] at hw)
+        · intro hw; simp at hw
+      · intro _; exact h (Or.inl hwpc)
+    | flush cl =>
+      cases cl
+      · dsimp only
+        split <;> (intro hw; simp [afterFlush, afterBatch] at hw)
+      · intro _; exact h (Or.inr (Or.inl hwpc))
   | fdrain =>
     simp only [step, fdrainStep]
     split
@@ -625,7 +720,7 @@ theorem noRace_step (c : Cfg) {s : St} (a : Act) (h : NoRace s)
   | sysdown => exact h
 
 theorem exitClean_step (c : Cfg) (hmb : 0 < c.maxBatch) {s : St} (a : Act)
-    (hn : NoRace s) (hc : Closing s) (he : ExitClean s) : ExitClean (step c s a) := by
+    (hn : PostBarrier s) (hc : Closing s) (he : ExitClean s) : ExitClean (step c s a) := by
   cases a with
   | begin m =>
     simp only [step]
@@ -638,24 +733,32 @@ theorem exitClean_step (c : Cfg) (hmb : 0 < c.maxBatch) {s : St} (a : Act)
     obtain ⟨_, _, _, _, _, _, h7, h8, _⟩ := subStep_frame c s t pick
     intro hw
     rw [h7, h8] at hw
-    have hd : s.done = true := by
+    have hset : s.wpc = .drain true ∨ s.wpc = .flush true ∨ s.wpc = .exited := by
       rcases hw with hw | hw
-      · exact hc (Or.inr (Or.inr hw))
-      · exact hc (Or.inr (Or.inl hw.1))
-    rw [(subStep_noRace c s t pick hd (hn hd)).1]
+      · exact Or.inr (Or.inr hw)
+      · exact Or.inr (Or.inl hw.1)
+    rw [(subStep_noRace c s t pick (hc (closingOf hset)) (hn hset)).1]
     exact he hw
   | close => exact he
   | wstep pick ok =>
     simp only [step]
     unfold wStep
-    split
-    · exact he
-    · split
-      · exact he
+    cases hwpc : s.wpc with
+    | exited => exact he
+    | barrier =>
+      dsimp only
+      split
+      · intro hw; simp at hw
+      · intro hw; simp [hwpc] at hw
+    | select =>
+      dsimp only
+      split
+      · intro hw; simp [hwpc] at hw
       · intro hw; simp at hw
       · intro hw; simp at hw
       · split <;> (intro hw; simp at hw)
-    · rename_i cl hwpc
+    | drain cl =>
+      dsimp only
       split
       · split
         · rename_i hch
@@ -666,7 +769,8 @@ theorem exitClean_step (c : Cfg) (hmb : 0 < c.maxBatch) {s : St} (a : Act)
         simp only [WPc.flush.injEq, reduceCtorEq, false_or] at hw
         have : s.batch.length = 0 := by rw [hw.2]; rfl
         omega
-    · rename_i cl hwpc
+    | flush cl =>
+      dsimp only
       split
       · rename_i hb
         intro hw
@@ -682,6 +786,13 @@ theorem exitClean_step (c : Cfg) (hmb : 0 < c.maxBatch) {s : St} (a : Act)
     · exact he
   | sysdown => exact he
 
+theorem barrier_run (c : Cfg) (hmb : 0 < c.maxBatch) (acts : List Act) {s : St}
+    (hc : Closing s) (hp : PostBarrier s) (he : ExitClean s) :
+    Closing (run c s acts) ∧ PostBarrier (run c s acts) ∧ ExitClean (run c s acts) := by
+  induction acts generalizing s with
+  | nil => exact ⟨hc, hp, he⟩
+  | cons a as ih =>
+    exact ih (closing_step c a hc) (postBarrier_step c a hc hp) (exitClean_step c hmb a hp hc he)
 
 /-! ### getCoalescer: at most one coalescer per destination, every caller gets that one -/
 namespace GC
